@@ -10,14 +10,19 @@ PROP = dict(race_binary=True,
     exhaustive=dict(quick=False, thorough=False),
     confirm_rerun=True, shrink=False, timeout=1500, search_rounds=1,
     rule="one record = one scripted run of the real gorwp.Connect + handlers against an in-process loopback panel (32 at a time): "
-         "initial answers complete / one item missing / SVG 2.5 s late, both protocol modes; every event kind x bound/unbound id x each "
-         "binding kind alone and all together; n random histories of events interleaved with pings and identity/topology/map updates, "
+         "initial answers complete / one item missing / SVG 2.5 s late, both protocol modes, and (ASCII) a line that never gets its line feed; "
+         "every event kind x bound/unbound id x each "
+         "binding kind alone and all together; n random histories of events interleaved with pings, bare acknowledges and identity/topology/map updates, "
          "one write per message / one byte per write / random cuts; bursts of 50-500 events without and with SetLEDColor feedback from the "
          "handlers; over-limit headers {500000, 500001, 2^31, 2^32-1} and truncated frames at first / middle position followed by valid "
          "frames; topology updates of varying shape (a later, smaller topology after a richer one: GetTopology() must equal a fresh parse of the last JSON); "
          "back-pressure (the panel stops reading while a handler's 24-40 x 1 MiB feedback fills the outgoing queue, pings in that window, reads again: "
-         "one ack per ping); Bind* from a second goroutine during a burst (child process; thorough: also race-instrumented). EQ = invocation log, ack "
-         "count and final state equal the model's (Gorwp.dispatch / acks / finalState; the reader variant and a stall are reported as branch "
+         "one ack per ping); Bind* from a second goroutine during a burst (child process; thorough: also race-instrumented); Bind* calls at "
+         "scripted points between events (K items: earlier events are not delivered to the new handler, later ones exactly once). "
+         "Not in the default run (open findings, library unchanged): VERIF_C19_CONNECT=1 adds the connection lost inside the initialisation window "
+         "(init=close0|close2|overlimit|stall), VERIF_C19_ACKFLOW=1 adds messages with flow field ACK that carry an event / identity. "
+         "EQ = Connect's result, invocation log, ack "
+         "count and final state equal the model's (Gorwp.connect / dispatchDyn over readerView / acks / finalState; the reader and init variants and a stall are reported as branch "
          "tags); H = Spec/GorwpSpec.lean on the observation; distinct = distinct script text",
     trusted_base=["Go scheduler, memory model (data races are looked for with the runtime's map check and, thorough, -race: supporting evidence only), "
                   "kernel TCP and the wall clock are outside the model",
@@ -28,21 +33,32 @@ PROP = dict(race_binary=True,
 
 CLAIM = dict(
     category="proof",
-    text="Lean theorems: for every binding set and every history of messages, the invocation log of the dispatch function "
-         "(Gorwp.dispatch, mirroring procesMessagesFromPanel) is exactly, event by event in panel order, one invocation per bound handler "
-         "whose kind matches a component of the event, with the event's id, press state, edge or value (C19.dispatch_exactly_once_in_order, "
-         "stated with the independent checker Spec.Gorwp.checkLog); one ack per ping; the stored model / serial / name / topology JSON / SVG "
-         "are the latest non-empty values, the parsed topology is built from the latest JSON only (C19.topology_getter_from_latest_json; JSON parsing itself is not modelled) and the availability map holds the latest value per key; IsInitialized holds exactly when model, "
-         "serial, topology JSON and SVG have all arrived. For an LTS of the reader and the single select loop with its two bounded queues: "
-         "with the over-limit branch returning (repair 1) nothing after a broken frame is ever dispatched and every message before it is "
-         "dispatched at most once in order; with the writer decoupled from the dispatcher (repair 2) the loop is never blocked for good. For "
-         "the pinned code both are refuted by concrete executions (C19.overlimit_keeps_parsing_counterexample, "
-         "C19.queue_self_deadlock_counterexample) and the blocked state is shown permanent. Tie to the code: the real client is run against "
-         "scripted loopback panels; invocation log, acks on the wire, getters and Connect's result are compared with the model and judged by "
+    text="Lean theorems. (a) For every binding set and every history of messages, the invocation log of the dispatch function "
+         "(Gorwp.dispatch, mirroring procesMessagesFromPanel) is, event by event in panel order, exactly what the event owes: for every kind of "
+         "handler one invocation if it is bound to the event's id and the event matches, none otherwise, with the event's id, press state, edge or value "
+         "(C19.dispatch_exactly_once_in_order; the specification side Spec.Gorwp.checkLog/groupOk states this by counting per handler kind and membership and "
+         "does not compute an expected log); the same for runs interleaving Bind* calls with events (C19.dispatchDyn_exactly_once_in_order: a handler bound "
+         "before an event sees it; C19.rebinding_does_not_change_dispatch); one ack per ping; the stored model / serial / name / topology JSON / SVG "
+         "are the latest non-empty values, the parsed topology is built from the latest JSON only (C19.topology_getter_from_latest_json, under the model's "
+         "assumption of a fresh object per update, which the harness checks on the implementation by comparing digests; JSON parsing itself is not modelled) and the "
+         "availability map holds the latest value per key; IsInitialized holds exactly when model, serial, topology JSON and SVG have all arrived; the reader's "
+         "ACK filter loses nothing when ACK messages carry nothing else (C19.reader_filter_transparent). Connect as it should be (cancelled context during "
+         "initialisation = error unless initialised) succeeds exactly when the four items arrive within the window, for every course of the window "
+         "(C19.connect_succeeds_iff_four_items_in_window). (b) For an LTS of reader, dispatcher and writer goroutines (code as it is; the pinned code had one select "
+         "loop) around the two bounded queues, for all queue capacities >= 1 (instantiated with the capacities extracted from the source): "
+         "with the over-limit branch returning nothing after a broken frame is ever dispatched and every message before it is "
+         "dispatched at most once in order; with the writer decoupled from the dispatcher a blocked dispatcher is always released, no state with pending events is stuck, "
+         "every non-ticker step decreases a progress measure, and every run that is strongly fair to reader, dispatcher and writer eventually has dispatched exactly the "
+         "messages before the first broken frame (C19.all_dispatched_eventually). Refuted by concrete executions: pinned code "
+         "(C19.overlimit_keeps_parsing_counterexample, C19.queue_self_deadlock_counterexample, blocked state permanent); CODE AS IT IS, open findings: "
+         "Connect returns success whenever the connection is lost inside the initialisation window (C19.connect_pinned_success_on_lost_connection_counterexample) and the "
+         "binary reader drops an ACK message together with an event it carries (C19.ack_message_with_event_dropped_counterexample). Tie to the code: the real client is run against "
+         "scripted loopback panels; Connect's result, invocation log, acks on the wire and getters are compared with the model and judged by "
          "the independent monitors.",
     note=TB + "PARTIAL: proof of the dispatch logic and of the queue/reader LTS over all interleavings + trace validation against the real "
-         "client. Outside the model: the Go scheduler, the Go memory model (the Bind*/dispatch data race is invisible to the LTS; it shows as "
-         "a runtime crash `concurrent map read and map write` in a child process and under -race), kernel TCP, real time (2 s window and 5 s "
-         "burst bound are checked on runs with tolerances), JSON parsing of the topology, the ASCII converters.",
-    technique="Lean 4 pure model + induction over histories; LTS with inductive invariants; decide counterexamples; trace validation on the real client",
+         "client. Outside the model: the Go scheduler (liveness is proved under strong fairness of the three goroutines), the Go memory model (the Bind*/dispatch data race is invisible to the LTS; it shows as "
+         "a runtime crash `concurrent map read and map write` in a child process and under -race), kernel TCP, real time (2 s window, 10 ms poll and 5 s "
+         "burst bound are checked on runs with tolerances), JSON parsing of the topology, the ASCII converters. The two open findings are sampled only with "
+         "VERIF_C19_CONNECT=1 / VERIF_C19_ACKFLOW=1.",
+    technique="Lean 4 pure model + induction over histories; LTS with inductive invariants, progress measure and fair infinite runs; decide counterexamples; trace validation on the real client",
 )
